@@ -403,8 +403,79 @@ def term_as_num(t: Val, array: bool, kind=None) -> Num:
         length = sym.A('Len', ref)
         if isinstance(t, Term) and t.head == 'listcomp' and len(t.args) == 2 and isinstance(t.args[1], Num):
             length = t.args[1].r
+        elif isinstance(t, Term):
+            ln = lib_length(t)
+            if ln is not None:
+                length = ln
         return Num(sym.A('el', ref, sym.idx()), length, kind or 'ndarray')
     return Num(sym.A('val', ref))
+
+
+def _len_of(v) -> Optional[Rat]:
+    if isinstance(v, Num):
+        return v.length
+    if isinstance(v, Term) and v.kind in ('ndarray', 'list'):
+        return term_as_num(v, True, v.kind).length
+    if isinstance(v, Term):
+        return lib_length(v)
+    if isinstance(v, Gam):
+        a, b = _len_of(v.a), _len_of(v.b)
+        if a is not None and b is not None and a == b:
+            return a
+    return None
+
+
+def lib_length(t: 'Term') -> Optional[Rat]:
+    """written table (DESIGN 2.9): symbolic extent of the 1-D result of a few library calls"""
+    h = t.head
+
+    def arg(name, i):
+        v = t.kw(name)
+        if v is None and i is not None and i < len(t.args):
+            v = t.args[i]
+        return v
+    try:
+        if h == 'lib:numpy.tile':
+            a, reps = arg('A', 0), arg('reps', 1)
+            la = _len_of(a)
+            if la is not None and isinstance(reps, Num) and reps.length is None:
+                return la * reps.r
+        elif h in ('lib:numpy.append',):
+            a, v = arg('arr', 0), arg('values', 1)
+            la = _len_of(a)
+            if la is not None and isinstance(v, Num):
+                return la + (v.length if v.length is not None else C(1))
+        elif h == 'lib:numpy.linspace':
+            st_, sp_, num = arg('start', 0), arg('stop', 1), arg('num', 2)
+            if isinstance(st_, Num) and st_.length is None and isinstance(sp_, Num) and sp_.length is None:
+                return num.r if isinstance(num, Num) else C(50)
+        elif h == 'lib:numpy.interp':
+            return _len_of(arg('x', 0))
+        elif h in ('lib:numpy.zeros', 'lib:numpy.ones', 'lib:numpy.empty'):
+            shp = arg('shape', 0)
+            if isinstance(shp, Num) and shp.length is None:
+                return shp.r
+        elif h == 'lib:numpy.arange':
+            stop = arg('stop', None)
+            start = arg('start', None)
+            if len(t.args) == 1 and not t.kwargs and isinstance(t.args[0], Num):
+                return t.args[0].r
+            if stop is not None and start is None and not t.args and isinstance(stop, Num) and arg('step', None) is None:
+                return stop.r
+        elif h == 'apply' and len(t.args) == 2:
+            f = t.args[0]
+            if isinstance(f, Term) and (f.head in ('lib:scipy.interpolate.CubicSpline', 'lib:scipy.interpolate.BSpline',
+                                                   'lib:scipy.interpolate.PchipInterpolator', 'lib:scipy.interpolate.Akima1DInterpolator')
+                                        or f.head == 'call:traffic_weaver.process.spline_smooth'):
+                return _len_of(t.args[1])
+        elif h in ('lib:numpy.sort', 'lib:numpy.cumsum', 'lib:numpy.flip', 'lib:numpy.roll', 'lib:numpy.nan_to_num', 'lib:numpy.clip',
+                   'lib:numpy.copy', 'lib:numpy.asarray', 'lib:numpy.array', 'lib:numpy.asanyarray', 'lib:numpy.exp', 'lib:numpy.log', 'lib:numpy.sin', 'lib:numpy.cos', 'lib:numpy.round'):
+            return _len_of(arg('a', 0) if arg('a', 0) is not None else arg('x', 0))
+        elif h in ('stored', 'loopstate', 'mutated'):
+            return _len_of(t.args[0])
+    except Exception:
+        return None
+    return None
 
 
 def walk_vals(v):
